@@ -418,7 +418,7 @@ def run_impl(ctx, exe, cases):
                     res[k] = {"lines": [], "crashed": None, "skipped": True}
             break
         inp = "".join(case_line_impl(k, cases[k]) for k in range(start, len(cases)))
-        r = ctx.run(exe, inp, timeout=240)
+        r = ctx.run(exe, inp, timeout=45)
         recs, ended = split_records(r.out, len(cases))
         last = start - 1
         for k in sorted(recs):
@@ -431,7 +431,7 @@ def run_impl(ctx, exe, cases):
         bad = next((k for k in range(start, len(cases)) if res[k] is None), None)
         if bad is None:
             break
-        why = r.sanitizer or ("timeout (240 s for the batch)" if r.timed_out else "rc=%s %s" % (r.rc, r.err[-400:]))
+        why = r.sanitizer or ("timeout (45 s for a batch that normally takes under 1 s)" if r.timed_out else "rc=%s %s" % (r.rc, r.err[-400:]))
         res[bad] = {"lines": recs.get(bad, []), "crashed": str(why)}
         crashes += 1
         start = bad + 1
